@@ -217,7 +217,7 @@ def _positions_tie(tool):
 RT_WHAT = {"<OUTDIR>": "own-output-directory", "<TMPDIR>": "own-temp-directory",
            "<OUTDIR of another job>": "output-directory-of-another-job", "<TMPDIR of another job>": "temp-directory-of-another-job",
            "<TMPDIR shared with another job>": "shared-with-another-job", "<TMPDIR: not a directory>": "not-a-directory",
-           "<unset>": "unset"}
+           "<TMPDIR differs from runtime.tmpdir>": "differs-from-runtime.tmpdir", "<unset>": "unset"}
 
 
 def compare(ctx, cb, case, res, report=True, step=None):
